@@ -41,8 +41,8 @@ ASSUMPTIONS = [
     "quarter turns are judged in the coordinate and voxel-centre expressions only (a rotation of voxel *corners* does not map voxels onto voxels)",
 ]
 FLOORS = {
-    "quick": {"contract:rotation_state": 1500, "round_trip": 3000, "warp_exact": 500, "coordinate_transformation": 90},
-    "thorough": {"contract:rotation_state": 15000, "round_trip": 30000, "warp_exact": 5000, "coordinate_transformation": 900},
+    "quick": {"contract:rotation_state": 1500, "round_trip": 3000, "warp_exact": 500, "coordinate_transformation": 90, "parameter_update_histories": 1000, "mixed_kind_maps": 500},
+    "thorough": {"contract:rotation_state": 15000, "round_trip": 30000, "warp_exact": 5000, "coordinate_transformation": 900, "parameter_update_histories": 10000, "mixed_kind_maps": 5000},
 }
 SHARD_TIMEOUT = {"quick": 1500, "thorough": 6000}
 
@@ -152,6 +152,64 @@ def run_shard(spec, R):
         R.sig(["pts", dim, nz, typed], True, cls=f"points/{dim}d/{nz}angles")
         if n < 1:
             R.sample(case)
+
+        # ---- parameter-update history on this object (forward and inverse have been evaluated above): partial updates
+        # through set_parameters; after each, the object must agree with a fresh object given all current parameters
+        # at once, and remain a pair of mutual inverses
+        cur = {"translation": t.copy(), "scaling": s, "rotation": ang.copy()}
+        for upd in range(int(rng.integers(1, 4))):
+            which = [["scaling"], ["translation"], ["rotation"], ["translation", "scaling"], ["scaling"]][int(rng.integers(0, 5))]
+            new = {}
+            if "scaling" in which:
+                new["scaling"] = float(10 ** rng.uniform(-1, 1))
+            if "translation" in which:
+                new["translation"] = rng.uniform(-10, 10, size=dim)
+            if "rotation" in which:
+                new["rotation"] = rng.uniform(-np.pi, np.pi, size=1 if dim == 2 else 3)
+            ok, _ = R.guarded("set_parameters", lambda: A.set_parameters(**{k: (v.copy() if hasattr(v, "copy") else v) for k, v in new.items()}))
+            if not ok:
+                break
+            cur.update(new)
+            F = darsia.AffineTransformation(dim)
+            F.set_parameters(translation=np.array(cur["translation"], float), scaling=cur["scaling"], rotation=np.array(cur["rotation"], float))
+            if typed:
+                F.set_dtype(darsia.make_coordinate(X), darsia.make_coordinate(X))
+            hcase = {"dim": dim, "typed": typed, "updated": which, "step": upd, "current": {k: np.asarray(v).tolist() for k, v in cur.items()}}
+            s2 = cur["scaling"]
+            tol2 = 1e-9 * (1 + float(np.max(np.abs(X))) + float(np.max(np.abs(cur["translation"])))) * max(s2, 1 / s2)
+            ok, vals = R.guarded("call", lambda: (A(inp), F(inp), A.inverse(inp), F.inverse(inp), A.inverse(A(inp)), A(A.inverse(inp))))
+            if ok:
+                ya, yf, ia, jf, rt1, rt2 = [np.asarray(v, float) for v in vals]
+                R.check(np.array_equal(ya, yf) and np.array_equal(ia, jf), "updated_object_equals_fresh_object",
+                        lambda: {**hcase, "forward_diff": float(np.max(np.abs(ya - yf))), "inverse_diff": float(np.max(np.abs(ia - jf)))}, group=f"{dim}d/{'+'.join(which)}")
+                R.check(float(np.max(np.abs(rt1 - X))) <= tol2 and float(np.max(np.abs(rt2 - X))) <= tol2, "round_trip",
+                        lambda: {**hcase, "direction": "after partial update", "max_err": float(max(np.max(np.abs(rt1 - X)), np.max(np.abs(rt2 - X))))},
+                        key="C09:rotation_inverse_composed_in_forward_order" if (dim == 3 and int(np.sum(np.asarray(cur["rotation"]) != 0)) >= 2) else None, group=f"{dim}d/update")
+                R.count("parameter_update_histories")
+
+        # ---- maps whose source and destination points are of different kinds: a single point and the matching row of
+        # a batch must agree in value and kind, forward and backward
+        if n % 2 == 0:
+            mk = {"Coordinate": darsia.make_coordinate, "Voxel": darsia.make_voxel, "VoxelCenter": darsia.make_voxel_center}
+            one = {"Coordinate": darsia.Coordinate, "Voxel": darsia.Voxel, "VoxelCenter": darsia.VoxelCenter}
+            many = {"Coordinate": darsia.CoordinateArray, "Voxel": darsia.VoxelArray, "VoxelCenter": darsia.VoxelCenterArray}
+            tin, tout = [("Coordinate", "Voxel"), ("Voxel", "Coordinate"), ("Coordinate", "VoxelCenter"), ("VoxelCenter", "Coordinate"), ("Voxel", "VoxelCenter")][(n // 2) % 5]
+            Bm = darsia.AffineTransformation(dim)
+            Bm.set_parameters(translation=t.copy(), scaling=s, rotation=ang.copy())
+            Xin, Xout = mk[tin](X), mk[tout](X)
+            Bm.set_dtype(Xin, Xout)
+            mcase = {"dim": dim, "input_kind": tin, "output_kind": tout, "scaling": s}
+            ok, vals = R.guarded("call", lambda: (Bm(Xin), Bm(Xin[0]), Bm.inverse(Xout), Bm.inverse(Xout[0])))
+            if ok:
+                fb, fs, ib, isg = vals
+                good = isinstance(fb, many[tout]) and isinstance(fs, one[tout]) and isinstance(ib, many[tin]) and isinstance(isg, one[tin])
+                same = (np.shape(fs) == (dim,) and np.shape(isg) == (dim,)
+                        and bool(np.all(np.abs(np.asarray(fs, float) - np.asarray(fb, float)[0]) <= 1e-12 * (1 + np.abs(np.asarray(fb, float)[0]))))
+                        and bool(np.all(np.abs(np.asarray(isg, float) - np.asarray(ib, float)[0]) <= 1e-12 * (1 + np.abs(np.asarray(ib, float)[0])))))
+                R.check(good, "declared_types", lambda: {**mcase, "got": [type(v).__name__ for v in vals]}, group=f"{tin}->{tout}")
+                R.check(same, "single_equals_batch_row", lambda: {**mcase, "single_forward": np.asarray(fs, float).tolist(), "batch_row_forward": np.asarray(fb, float)[0].tolist(),
+                                                                  "single_inverse": np.asarray(isg, float).tolist(), "batch_row_inverse": np.asarray(ib, float)[0].tolist()}, group=f"{tin}->{tout}")
+                R.count("mixed_kind_maps")
 
     # ================================================================= warps
     def image_of(arr, dim, payload, dims, origin=None):
